@@ -37,12 +37,13 @@ VARIABLES
   kind,     \* [g -> branch taken, "" while in the read prefix]
   seen,     \* [g -> file content ReadAll returned]
   scan,     \* [g -> content read through the RW handle]
-  hmode,    \* [g -> "" | "append" | "rw"]
+  hmode,    \* [g -> "" | "append" | "rw" | "temp"]
+  tmp,      \* [g -> content of the goroutine's temporary file (write-then-rename protocols)]
   trunc,    \* [g -> the RW handle's file was truncated by this goroutine and not yet written]
   out,      \* [g -> outcome signalled, "" while running]
   step      \* what moved last (for schedule export)
 
-vars == <<file, exists, writer, readers, pc, kind, seen, scan, hmode, trunc, out, step>>
+vars == <<file, exists, writer, readers, pc, kind, seen, scan, hmode, tmp, trunc, out, step>>
 
 HdrG(g) == Hdr(TestOf[g], 1)
 Stored(g) == Escape(ValOf[g])
@@ -52,7 +53,7 @@ Init ==
   /\ writer = "" /\ readers = {}
   /\ pc = [g \in Gs |-> 1] /\ kind = [g \in Gs |-> ""]
   /\ seen = [g \in Gs |-> EmptyFile] /\ scan = [g \in Gs |-> EmptyFile]
-  /\ hmode = [g \in Gs |-> ""] /\ trunc = [g \in Gs |-> FALSE]
+  /\ hmode = [g \in Gs |-> ""] /\ trunc = [g \in Gs |-> FALSE] /\ tmp = [g \in Gs |-> EmptyFile]
   /\ out = [g \in Gs |-> ""]
   /\ step = [g |-> "", op |-> "init"]
 
@@ -86,23 +87,32 @@ Prim(g) ==
   /\ LET op == Cur(g) IN
      /\ step' = [g |-> g, op |-> op]
      /\ CASE op = "RLock"   -> /\ writer = "" /\ readers' = readers \cup {g}
-                               /\ UNCHANGED <<file, exists, writer, seen, scan, hmode, trunc>>
+                               /\ UNCHANGED <<file, exists, writer, seen, scan, hmode, tmp, trunc>>
           [] op = "RUnlock" -> /\ readers' = readers \ {g}
-                               /\ UNCHANGED <<file, exists, writer, seen, scan, hmode, trunc>>
+                               /\ UNCHANGED <<file, exists, writer, seen, scan, hmode, tmp, trunc>>
           [] op = "Lock"    -> /\ writer = "" /\ readers = {} /\ writer' = g
-                               /\ UNCHANGED <<file, exists, readers, seen, scan, hmode, trunc>>
+                               /\ UNCHANGED <<file, exists, readers, seen, scan, hmode, tmp, trunc>>
           [] op = "Unlock"  -> /\ writer' = ""
-                               /\ UNCHANGED <<file, exists, readers, seen, scan, hmode, trunc>>
+                               /\ UNCHANGED <<file, exists, readers, seen, scan, hmode, tmp, trunc>>
           [] op = "ReadAll" -> /\ seen' = [seen EXCEPT ![g] = IF exists THEN file ELSE EmptyFile]
-                               /\ UNCHANGED <<file, exists, writer, readers, scan, hmode, trunc>>
+                               /\ UNCHANGED <<file, exists, writer, readers, scan, hmode, tmp, trunc>>
           [] op = "OpenAppend" -> /\ hmode' = [hmode EXCEPT ![g] = "append"] /\ exists' = TRUE
-                                  /\ UNCHANGED <<file, writer, readers, seen, scan, trunc>>
+                                  /\ UNCHANGED <<file, writer, readers, seen, scan, tmp, trunc>>
           [] op = "OpenRW"  -> /\ hmode' = [hmode EXCEPT ![g] = "rw"]
-                               /\ UNCHANGED <<file, exists, writer, readers, seen, scan, trunc>>
+                               /\ UNCHANGED <<file, exists, writer, readers, seen, scan, tmp, trunc>>
           [] op = "ScanAll" -> /\ scan' = [scan EXCEPT ![g] = file]
-                               /\ UNCHANGED <<file, exists, writer, readers, seen, hmode, trunc>>
+                               /\ UNCHANGED <<file, exists, writer, readers, seen, hmode, tmp, trunc>>
           [] op = "Truncate" -> /\ file' = EmptyFile /\ trunc' = [trunc EXCEPT ![g] = TRUE]
-                                /\ UNCHANGED <<exists, writer, readers, seen, scan, hmode>>
+                                /\ UNCHANGED <<exists, writer, readers, seen, scan, hmode, tmp>>
+          [] op = "CreateTemp" -> /\ hmode' = [hmode EXCEPT ![g] = "temp"] /\ tmp' = [tmp EXCEPT ![g] = EmptyFile]
+                                  /\ UNCHANGED <<file, exists, writer, readers, seen, scan, trunc>>
+          [] op = "Rename" -> \* the temporary file replaces the shared one atomically
+               /\ file' = tmp[g] /\ exists' = TRUE
+               /\ UNCHANGED <<writer, readers, seen, scan, hmode, tmp, trunc>>
+          [] op = "Write" /\ hmode[g] = "temp" ->
+               /\ tmp' = [tmp EXCEPT ![g] = IF kind[g] = "create" THEN AppendEntry(scan[g], HdrG(g), Stored(g))
+                                                                  ELSE RewriteEntry(scan[g], HdrG(g), Stored(g))]
+               /\ UNCHANGED <<file, exists, writer, readers, seen, scan, hmode, trunc>>
           [] op = "Write"   ->
                /\ file' = IF hmode[g] = "append" THEN AppendEntry(file, HdrG(g), Stored(g))
                           ELSE \* RW handle at offset 0: overwrites from the start; what lies
@@ -112,9 +122,9 @@ Prim(g) ==
                                ELSE [lines |-> new.lines \o SubSeq(file.lines, Len(new.lines) + 1, Len(file.lines)),
                                      nl |-> file.nl]
                /\ trunc' = [trunc EXCEPT ![g] = FALSE]
-               /\ UNCHANGED <<exists, writer, readers, seen, scan, hmode>>
+               /\ UNCHANGED <<exists, writer, readers, seen, scan, hmode, tmp>>
           [] OTHER -> \* MkdirAll, Seek, Close, Stat ...: no effect on the modelled state
-               UNCHANGED <<file, exists, writer, readers, seen, scan, hmode, trunc>>
+               UNCHANGED <<file, exists, writer, readers, seen, scan, hmode, tmp, trunc>>
      /\ Advance(g)
 
 Next == \E g \in Gs : Prim(g)
